@@ -57,7 +57,7 @@ func RenderJSONPointer(p []string) string {
 	return sb.String()
 }
 
-func renderSel(p []string) string {
+func RenderSel(p []string) string {
 	if !isIdent(p[0]) || strings.Contains(p[0], "/") {
 		return RenderJSONPointer(p)
 	}
@@ -76,7 +76,7 @@ func renderSel(p []string) string {
 	return sb.String()
 }
 
-func renderLit(s string) string {
+func RenderLit(s string) string {
 	if !strings.ContainsAny(s, "`\r") {
 		return "`" + s + "`"
 	}
@@ -86,24 +86,24 @@ func renderLit(s string) string {
 func Render(e any) string {
 	switch n := e.(type) {
 	case *Match:
-		sel := renderSel(n.Sel)
+		sel := RenderSel(n.Sel)
 		switch n.Op {
 		case OpEq:
-			return sel + " == " + renderLit(n.Lit)
+			return sel + " == " + RenderLit(n.Lit)
 		case OpNe:
-			return sel + " != " + renderLit(n.Lit)
+			return sel + " != " + RenderLit(n.Lit)
 		case OpIn:
-			return renderLit(n.Lit) + " in " + sel
+			return RenderLit(n.Lit) + " in " + sel
 		case OpNotIn:
-			return renderLit(n.Lit) + " not in " + sel
+			return RenderLit(n.Lit) + " not in " + sel
 		case OpEmpty:
 			return sel + " is empty"
 		case OpNotEmpty:
 			return sel + " is not empty"
 		case OpMatches:
-			return sel + " matches " + renderLit(n.Lit)
+			return sel + " matches " + RenderLit(n.Lit)
 		case OpNotMatches:
-			return sel + " not matches " + renderLit(n.Lit)
+			return sel + " not matches " + RenderLit(n.Lit)
 		}
 	case *Not:
 		return "not (" + Render(n.X) + ")"
@@ -129,7 +129,7 @@ func Render(e any) string {
 		case BindBoth:
 			b = n.Idx + ", " + n.Val
 		}
-		return kw + renderSel(n.Sel) + " as " + b + " { " + Render(n.Body) + " }"
+		return kw + RenderSel(n.Sel) + " as " + b + " { " + Render(n.Body) + " }"
 	}
 	panic("render")
 }
